@@ -122,6 +122,14 @@ def build_contracts(mod, prop, tier, seed):
         _ex.REFERENCE_PORTS = dict(baseline.get(c.name, {}).get("__ports__", {}))
         try:
             fn(c)
+            # the step semantics is "one active edge of the unit's clock domain(s), all together": a unit whose flip-flops
+            # have moved into a clock domain it did not have on the reference tree is outside what was proved
+            ref_clk = baseline.get(c.name, {}).get("__clocks__")
+            now_clk = {u.prefix: sorted(u.clock_inputs) for u in c.units}
+            c.lemma("clock_domains_of_the_units_are_those_of_the_reference_tree",
+                    z3.BoolVal(ref_clk is None or ref_clk == now_clk),
+                    clause=f"(structural) clock inputs per unit {now_clk}; on the reference tree {ref_clk}: every flip-flop is "
+                           "clocked by the domain the contract's cycle semantics assumes")
             for u in c.units:
                 for p_, (v_, ref_) in u.widened.items():
                     c.invs.append((f"widened:{p_}_upper_bits_zero", z3.Extract(v_.size() - 1, ref_, v_) == 0))
@@ -149,6 +157,7 @@ def build_contracts(mod, prop, tier, seed):
             for rb in u.rebound:
                 c.degraded.append("followed a rename: " + rb)
         probes["__regs__"] = regs
+        probes["__clocks__"] = {u.prefix: sorted(u.clock_inputs) for u in c.units}
         probes["__mods__"] = {u.prefix + m_: k_ for u in c.units for m_, k_ in u.module_classes().items()}
         probes["__ports__"] = {u.prefix + n: v.size() for u in c.units for d_ in (u.inputs, u.outputs)
                                for n, v in d_.items() if z3.is_bv(v)}
@@ -158,7 +167,7 @@ def build_contracts(mod, prop, tier, seed):
                     c.log.setdefault("narrowed_ports", []).append(f"{u.prefix}{n}: {r_} -> {w_} bits (read zero-extended)")
         record[c.name] = probes
         for name, ok in probes.items():
-            if name not in ("__regs__", "__ports__", "__mods__") and not ok and baseline.get(c.name, {}).get(name) is True:
+            if name not in ("__regs__", "__ports__", "__mods__", "__clocks__") and not ok and baseline.get(c.name, {}).get(name) is True:
                 c.degraded.append(f"optional name {name} resolved on the reference tree but not on this one")
         ctxs.append(c)
     if os.environ.get("HWV_RECORD_PROBES") and not os.environ.get("HWV_REPO"):
@@ -183,6 +192,7 @@ def _target_formula(c, f):
         for n, impl, spec, method, _ in c.combs:
             if n == name:
                 return impl == spec
+    if f["kind"] in ("comb", "lemma"):
         for n, fm, _ in c.lemmas:
             if n == name:
                 return fm
@@ -209,8 +219,11 @@ def triage(c, failed, prop, tier):
             found = {}
         best = None
         found = {n: (None if v == "timeout" else v) for n, v in found.items()}
+        # the shared fallback witness: an ensures-level one ("not:") is preferred over an invariant-level one ("notinv:"),
+        # then the shortest -- a degraded contract's refutation only counts with a replayed ensures-level witness
+        rank = lambda n, v: (0 if n.startswith("not:") else 1, v[0])
         for n, v in found.items():
-            if v is not None and (best is None or v[0] < best[1][0]):
+            if v is not None and (best is None or rank(n, v) < rank(*best)):
                 best = (n, v)
         if best:
             witness = best
@@ -255,6 +268,14 @@ def triage(c, failed, prop, tier):
                     reproduced = True      # a combinational claim quantifies over all states: this state is a legitimate input
             except Exception:
                 doc["state_injection_replay"] = {"error": traceback.format_exc()}
+        if "/lemma/" in f["name"]:
+            try:
+                if z3.is_false(z3.simplify(_target_formula(c, f))):
+                    reproduced = False
+                    doc["structural"] = ("the failed obligation is a structural statement about the elaborated design (instances, "
+                                         "parameters, clock domains): it fails for every input, there is no input history to replay")
+            except Exception:
+                pass
         if not witness:
             doc["witness"] = None
             doc["note"] = ("no input history from reset violating an ensures clause was found within the BMC depth; "
